@@ -94,6 +94,18 @@ def run(ctx):
                     true_t = oth
                     reach = b.reachable(true_t)
                     ok = ok or (not any(n.bb in reach for n in news) and all(dominates(b, c.bb, n.bb) for n in news))
+            # the same test written as a match on the stored slot: the occupied side creates nothing
+            for i_ in b.live_blocks():
+                t_ = b.term(i_)
+                if t_["k"] != "switch":
+                    continue
+                for s_ in b.stmts(i_):
+                    if s_["k"] == "assign" and s_["rv"]["k"] == "discr" and s_["rv"]["place"]["l"] == 1 and any(e_[0] == "f" for e_ in s_["rv"]["place"].get("p", [])):
+                        vm = {n_: d_ for d_, n_ in s_["rv"].get("variants", [])}
+                        tg_ = {v_: tb_ for v_, tb_ in t_["targets"]}
+                        some_t = tg_.get(vm.get("Some"), t_["otherwise"])
+                        if "Some" in vm:
+                            ok = ok or (not any(n.bb in b.reachable(some_t) for n in news) and all(dominates(b, i_, n.bb) for n in news))
             ctx.check(ok and bool(news), "R13.3", key + "#single-open", loc(b), "a lazily created slot can be opened (re-created) although one already exists")
             ctx.check(len(inner) == 1 and any(x[0] == "arg" and x[1] == mp for x in pr.operand(inner[0].args[-1])), "R13.3", key + "#mode-forwarded", loc(b),
                       "the requested parent-drop mode is not forwarded to Slot::open (the guard silently falls back to discard)")
